@@ -17,7 +17,7 @@ JOBS = {'quick': 4, 'thorough': 16}
 REQUIRED_MONITORS = ('trace_checked', 'metropolis_direct', 'acceptance_draw_observed', 'ring_moves_checked')
 REQUIRED_CLASSES = ('types:(0,)', 'types:(1,)', 'types:(2,)', 'types:(0, 1, 2)', 'types:(0, 1)', 'budget:1', 'budget:2',
                     'budget:>=100', 'restraints:none', 'restraints:partial', 'restraints:all-fixed', 'restraints:mobile-in-order', 'worse-accepted',
-                    'worse-rejected', 'improved', 'units:small', 'units:large', 'proposal:non-finite-measure', 'mobile:multi-residue', 'bond-table:keys-in-another-order', 'proposal:translation', 'proposal:rotation', 'proposal:atom-move')
+                    'worse-rejected', 'improved', 'units:small', 'units:large', 'proposal:non-finite-measure', 'mobile:multi-residue', 'bond-table:keys-in-another-order', 'proposal:translation', 'proposal:rotation', 'proposal:atom-move', 'run:interrupted-then-started-again')
 RULE = ('runs of minimize_molecules over (mobile molecule: random tree / cyclic graph 1..25 atoms) x (fixed set 1..40 points) '
         'x deformation-type subset x step budget {1,2,3,10,100,2000, random} x restraint class x seed. Every step of every run '
         'is checked. Non-trivial run: at least one accepted and one rejected proposal. distinct = distinct (n_mobile, n_fixed, '
@@ -74,6 +74,10 @@ def gen_restraints(rng, cls, nf, nm):
 
 # longest trace kept of one run (steps); a healthy run of the largest budget needs a small fraction of it
 STEP_CAP = 150000
+
+
+def w0(loc):
+    return {k: loc.get(k) for k in ('nm', 'nf', 'types', 'budget', 'seed')}
 
 
 def run_run(ctx, case):
@@ -146,6 +150,28 @@ def run_run(ctx, case):
     width = float(rng.uniform(0.1, 0.8)) * unit
     seed = ctx.libseed('run', i)
     np.random.seed(seed)
+    if i % 7 == 5:
+        # the search is interrupted from outside (Ctrl-C: KeyboardInterrupt out of the k-th random draw): it must not
+        # come back as if it had finished; the caller then simply starts it again (the traced run below)
+        real_choice, left = np.random.choice, [int(rng.integers(1, 40))]
+
+        def choice(*a, **k):
+            left[0] -= 1
+            if left[0] <= 0:
+                raise KeyboardInterrupt()
+            return real_choice(*a, **k)
+        ctx.hit('run:interrupted-then-started-again')
+        try:
+            with bus.patched(np.random, 'choice', choice):
+                gaddlemaps._backend.minimize_molecules(fixed, initial.copy(), initial.mean(axis=0), sigma, budget, restr, bonds, width, types)
+            if left[0] <= 0:
+                ctx.violation('interrupted-search-returned-as-if-finished',
+                              'a KeyboardInterrupt raised inside the search loop was swallowed: the search returned a configuration', witness=w0(locals()))
+        except KeyboardInterrupt:
+            pass
+        except Exception as exc:  # noqa
+            ctx.violation(f'minimize-raises:{type(exc).__name__}', str(exc)[:200])
+        np.random.seed(seed)
     tracer = mctrace.Tracer(n_steps=budget, max_steps=STEP_CAP)
     cut = False
     w = {'n_mobile': nm, 'n_fixed': nf, 'unit': unit, 'types': types, 'budget': budget, 'restraints': restr[:10], 'seed': seed}
